@@ -37,6 +37,28 @@ theorem C15_tables : ∀ t ∈ Gen.COMPOSE_TYPES, (Gen.COMPOSE_TYPE_ENCODER.look
 theorem C15_documented : ∀ p ∈ Spec.documentedSuffixes,
     Gen.COMPOSE_TYPE_SUFFIXES.lookup p.1 = some p.2 ∧ p.1 ≠ [] ∧ p.1.all Spec.lowerCls.mem = true := by decide
 
+/-- **The decoder table is EXACTLY the documented spellings** (`n`, `nightly`, `t`, `test`, `ci`, `d`, each with its
+documented meaning): nothing documented is missing and nothing undocumented is accepted.  A spelling added to (or
+dropped from) `COMPOSE_TYPE_SUFFIXES` breaks this obligation. -/
+theorem C15_table_exact : (∀ p ∈ Gen.COMPOSE_TYPE_SUFFIXES, p ∈ Spec.documentedSuffixes)
+    ∧ (∀ p ∈ Spec.documentedSuffixes, p ∈ Gen.COMPOSE_TYPE_SUFFIXES) := by decide
+
+theorem lookup_mem {k v : Str} : ∀ (l : List (Str × Str)), l.lookup k = some v → (k, v) ∈ l := by
+  intro l
+  induction l with
+  | nil => intro h; simp [List.lookup] at h
+  | cons x xs ih =>
+    intro h
+    obtain ⟨a, b⟩ := x
+    simp only [List.lookup] at h
+    split at h
+    · rename_i hk
+      simp only [Option.some.injEq] at h
+      have : k = a := by simpa using hk
+      subst this; subst h
+      exact List.mem_cons_self
+    · exact List.mem_cons_of_mem _ (ih h)
+
 theorem sufShape_spec {suf : Str} (h : sufShape suf = true) :
     suf = sufStr (suf.drop 1) ∧ ∀ x ∈ suf.drop 1, Spec.lowerCls.mem x = true := by
   cases suf with
@@ -158,6 +180,20 @@ theorem C15_decoder_exact (s : Str) : getDateTypeRespin s = dtrDirect s := by
     | some t =>
       obtain ⟨L, rfl⟩ := typeSplit_some hty
       rfl
+
+/-- **Everything outside the documented spellings is rejected**: lower-case letters that are not one of the documented
+six raise `ValueError` (from `C15_table_exact`: the table has no other key). -/
+theorem C15_undocumented_rejected_partial (P D L : Str) (r : Option Nat) (hP : '\n' ∉ P) (hD : D.length = 8)
+    (hDd : ∀ x ∈ D, digitCls.mem x = true) (hL : ∀ x ∈ L, Spec.lowerCls.mem x = true) (hne : L ≠ [])
+    (hr : ∀ n, r = some n → n < 10 ^ 7) (hundoc : ∀ t, (L, t) ∉ Spec.documentedSuffixes) :
+    getDateTypeRespin (P ++ (D ++ ('.' :: L ++ respStr r))) = .error .valueError := by
+  apply C15_unknown_suffix_partial P D L r hP hD hDd hL hne hr
+  cases hl : Gen.COMPOSE_TYPE_SUFFIXES.lookup L with
+  | none => rfl
+  | some t => exact absurd (C15_table_exact.1 _ (lookup_mem _ hl)) (hundoc t)
+
+example : ∀ t, ("development".toList, t) ∉ Spec.documentedSuffixes := by
+  intro t h; simp [Spec.documentedSuffixes] at h
 
 /-! ### created ids -/
 /-- the domain of the property: a date of 8 digits, a compose type of the table, a natural respin; no line feed in
